@@ -777,15 +777,16 @@ func (d *Deserializer) ReadVariableByteSlice(slice *[]byte, lenType SeriLengthPr
 		d.err = errProducer(ierrors.Wrapf(ErrDeserializationLengthMinNotReached, "denoted %d bytes, min required %d ", sliceLength, minLen))
 	}
 
-	dest := make([]byte, sliceLength)
-	if sliceLength == 0 {
-		*slice = dest
+	// check the denoted length against the remaining data before allocating: the length prefix is untrusted input
+	if len(d.src[d.offset:]) < sliceLength {
+		d.err = errProducer(ErrDeserializationNotEnoughData)
 
 		return d
 	}
 
-	if len(d.src[d.offset:]) < sliceLength {
-		d.err = errProducer(ErrDeserializationNotEnoughData)
+	dest := make([]byte, sliceLength)
+	if sliceLength == 0 {
+		*slice = dest
 
 		return d
 	}
